@@ -77,7 +77,10 @@ func (ec *Collector) Len() int { defer with(lock(&ec.mu)); return ec.stack.Len()
 // collector.
 func (ec *Collector) Iterator() *fun.Iterator[error] {
 	defer with(lock(&ec.mu))
-	return fun.CheckProducer(ec.stack.CheckProducer()).Iterator()
+	// iterate a copy of the head node (the rest of the list is
+	// immutable): Add rewrites the live head.
+	head := ec.stack
+	return fun.CheckProducer(head.CheckProducer()).Iterator()
 }
 
 // Resolve returns an error of type *erc.Stack, or nil if there have
